@@ -110,8 +110,13 @@ class CommandShowTitles : public DFS::CommandInterface
     bool ok = true;
     for (DFS::SurfaceSelector surface : todo)
       {
+	error.clear();
 	if (!show_title(storage, surface, error))
 	  {
+	    // When it is standard output that failed, error is empty
+	    // (and main reports that failure).
+	    if (!error.empty())
+	      DFS::failed_to_mount_surface(std::cerr, surface, error);
 	    ok = false;
 	  }
       }
